@@ -97,8 +97,10 @@ NRET_SHAPES = 15
 def wf(ti, im, ret):
     """the supported grammar: io::Error results only as integer codes, u8 errors only as CResult"""
     im = im & 3
+    if ret == 15:                      # AliasRes<T, ()>: only where the trait names the alias, and not under a method-level #[int_result] (which
+        return ti == 2 and im != 1     # resets the name to the literal Result)
     is_res = ret in (6, 7, 11, 12, 13)
-    active = is_res and (im == 1 or (im == 0 and ti == 1))
+    active = is_res and (im == 1 or (im == 0 and ti in (1, 2)))
     if ret in (11, 13):
         return not active
     if ret == 12:
@@ -122,6 +124,15 @@ def ir_cases(rng, tier, only_wf=True):
                             # the same method in a trait with a TYPE PARAMETER (header field 3): leaf 2 is written `T` (T: Copy + 'static)
                             if lf == 2 or any(a[1] == 2 for a in args):
                                 cases.append("1 %d 1 | %s" % (ti, " ".join(map(str, method_row(recv, im, ret, lf, args)))))
+    # #[int_result(AliasRes)] on the trait (header field 2 = 2): the alias is one more spelling of Result, the literal Result keeps its meaning
+    for recv in (0, 1, 2):
+        for im in (0, 1, 2):
+            for ret in (0, 1, 4, 6, 7, 11, 12, 13, 15):
+                if wf(2, im, ret):
+                    for args in ([], [(0, 2)], [(12, 1), (4, 3)]):
+                        cases.append("1 2 | %s" % " ".join(map(str, method_row(recv, im, ret, 2, args))))
+    rows = [method_row(0, 0, 15, 2, []), method_row(1, 0, 6, 3, [(0, 2)]), method_row(0, 2, 11, 2, []), method_row(0, 2, 15, 4, []), method_row(1, 1, 7, 0, []), method_row(0, 0, 12, 2, [])]
+    cases.append("1 2 | %s" % " ; ".join(" ".join(map(str, r)) for r in rows))
     # default bodies / explicit lifetime generics on the method (flags +4 / +8 of the intmode field) do not change the glue
     for flags in (4, 8, 12):
         for recv in (0, 1, 2):
@@ -155,11 +166,11 @@ def ir_cases(rng, tier, only_wf=True):
     n_ex = len(cases)
     nrand = 150 if tier == "quick" else 3000
     for _ in range(nrand):
-        ti = rng.below(2)
+        ti = rng.below(3)
         rows = []
         for _ in range(rng.range(2, 7)):
             while True:
-                recv, im, ret = rng.below(3), rng.below(3), rng.below(NRET_SHAPES)
+                recv, im, ret = rng.below(3), rng.below(3), rng.below(NRET_SHAPES + 1)
                 if wf(ti, im, ret):
                     break
             args = [(rng.below(NARG_SHAPES), rng.below(10)) for _ in range(rng.range(0, 4))]
@@ -480,7 +491,7 @@ def ir_monitor(l, impl_rows):
     return fails[:4]
 
 
-RESULT_RETS = (6, 7, 11, 12, 13)
+RESULT_RETS = (6, 7, 11, 12, 13, 15)
 
 
 def _ir_monitor_row(k, m, r, hdr=None):
@@ -502,7 +513,7 @@ def _ir_monitor_row(k, m, r, hdr=None):
         # which methods return an integer code is decided by the attributes: #[int_result] on the method, or on the trait unless the method opts out
         if hdr is not None and m[2] in RESULT_RETS and cret[0] != 99:
             mode = m[1] & 3
-            want_int = mode == 1 or (len(hdr) > 1 and hdr[1] == 1 and mode != 2)
+            want_int = mode == 1 or (len(hdr) > 1 and hdr[1] in (1, 2) and mode != 2)
             uses_int = cret[0] != 12
             if uses_int != want_int:
                 fails.append("m%d %s the integer result convention although %s" % (
@@ -553,7 +564,7 @@ def lint_probe(lines):
     if rc != 0:
         return ["!CRASH expansion failed " + e[-200:]] * len(lines)
     head = ("#![deny(improper_ctypes_definitions, improper_ctypes)]\n#![allow(unused, dead_code, unused_imports, clippy::all)]\n"
-            "use cglue::prelude::v1::*;\nuse cglue::*;\n#[repr(C)]\n#[derive(Clone, Copy)]\npub struct Pod { pub a: u8, pub b: u32, pub c: i64 }\n")
+            "use cglue::prelude::v1::*;\nuse cglue::*;\n#[repr(C)]\n#[derive(Clone, Copy)]\npub struct Pod { pub a: u8, pub b: u32, pub c: i64 }\npub type AliasRes<T, E> = Result<T, E>;\n")
     body = head + exp
     open(os.path.join(d, "src", "lib.rs"), "w").write(body)
     open(os.path.join(d, "Cargo.toml"), "w").write('[package]\nname = "ffi_probe"\nversion = "0.0.0"\nedition = "2018"\n\n[workspace]\n\n[dependencies]\ncglue = { path = "/repo/cglue" }\n')
@@ -662,6 +673,11 @@ def lint_cases(rng, tier):
             for im in (0, 1, 2):
                 rows = [method_row(recv, im, ret, (ret + 1) % 9, [(0, 3)]) for ret in range(NRET_SHAPES) if wf(ti, im, ret) and not (recv == 2 and ret in REF_RETS)]
                 cases.append("103 %d | %s" % (ti, " ; ".join(" ".join(map(str, r)) for r in rows)))
+    # traits naming an alias: #[int_result(AliasRes)]
+    for recv in (0, 1, 2):
+        for im in (0, 1, 2):
+            rows = [method_row(recv, im, ret, (ret + 1) % 9, [(0, 3)]) for ret in (1, 4, 6, 7, 11, 12, 13, 15) if wf(2, im, ret)]
+            cases.append("103 2 | %s" % " ; ".join(" ".join(map(str, r)) for r in rows))
     # the unsafe side: io::Error results that are NOT turned into integer codes
     for recv in (0, 1):
         cases.append("103 0 | " + " ".join(map(str, method_row(recv, 0, 12, 2, []))))
